@@ -297,6 +297,15 @@ fn corpus() -> Vec<Prog> {
     for ch in CHARS { c.push(Prog::Char(*ch)); }
     c.push(s("")); c.push(s("hello")); c.push(s("Hello, World"));
     for t in FIXED_STRS { c.push(s(t)); }
+    // every code point 0..=0x7f alone, as a char and inside a string (each of the 32 control characters has its own escape
+    // spelling: two hex digits or a short escape), and all of them in one string
+    for u in 0u32..=0x7f {
+        let ch = char::from_u32(u).unwrap();
+        c.push(Prog::Char(ch));
+        c.push(s(&format!("a{}b", ch)));
+    }
+    c.push(s(&(0u32..=0x7f).map(|u| char::from_u32(u).unwrap()).collect::<String>()));
+    c.push(map(vec![(s(&(0u32..0x20).map(|u| char::from_u32(u).unwrap()).collect::<String>()), i(1))]));
     c.push(s(&"x".repeat(300)));
     c.push(s(&format!("{}\n{}\"", "y".repeat(150), "z".repeat(150))));
     c.push(Prog::Bytes(vec![])); c.push(Prog::Bytes(vec![0, 255, 7])); c.push(Prog::Bytes(vec![42]));
